@@ -589,7 +589,77 @@ fn lab_part(ctx: &Ctx) -> u64 {
     n
 }
 
+/// A proxy that refuses and then keeps the connection open (persistent connections are what
+/// proxies do by default): the refusal is reported as such, with its status and at most 10 KiB of
+/// body, at once when the reply says how long its body is.
+fn keep_open_refusals(ctx: &Ctx) -> u64 {
+    let mut n = 0u64;
+    for status in [400u16, 403, 407, 502] {
+        // (framing fields, body bytes sent, exact body expected when known, must not wait)
+        let mut variants: Vec<(String, Vec<u8>, Option<Vec<u8>>, bool)> = Vec::new();
+        for len in [0usize, 2, 600, 10 * 1024, 20_000] {
+            let body = crate::wires::payload(len);
+            let exp = body[..len.min(10 * 1024)].to_vec();
+            variants.push((format!("Content-Length: {len}\r\n"), body, Some(exp), true));
+        }
+        variants.push((String::new(), b"denied".to_vec(), None, false));
+        variants.push(("Transfer-Encoding: chunked\r\n".into(), b"6\r\ndenied\r\n0\r\n\r\n".to_vec(), None, false));
+        for (fields, body, exact, must_not_wait) in variants {
+            for uniform in [None, Some(1usize), Some(4096)] {
+                n += 1;
+                let mut w = format!("HTTP/1.1 {status} Refused\r\nProxy-Connection: keep-alive\r\n{fields}\r\n").into_bytes();
+                w.extend_from_slice(&body);
+                let mut script = Script::plain(w);
+                script.end = End::Pause;
+                script.policy.uniform = uniform;
+                let world = World::single(script, false);
+                let ps = attohttpc::ProxySettings::builder().https_proxy(url::Url::parse("http://p.test:3128").unwrap()).build();
+                let res = guarded(|| attohttpc::get("https://o.test/x").proxy_settings(ps).send().map(|r| r.status().as_u16()));
+                let asked = world.shared(0).lock().unwrap().asked_beyond_pause;
+                let desc = format!(
+                    "CONNECT answered {status} with \"{}\" and {} body bytes, then the proxy keeps the connection open (transport reads of {uniform:?})",
+                    fields.trim_end(),
+                    body.len()
+                );
+                let replay = json!({"engine": "c12", "keep_open": true});
+                match res {
+                    Err(p) => ctx.violation("C12:panic", format!("{desc}: {p}"), replay, n),
+                    Ok(Ok(st)) => ctx.violation("C12:refusal-taken-as-success", format!("{desc}: send() = Ok({st})"), replay, n),
+                    Ok(Err(e)) => match e.kind() {
+                        attohttpc::ErrorKind::ConnectError { status_code, body: got } => {
+                            let ok_body = match &exact {
+                                Some(x) => got == x,
+                                None => got.len() <= 10 * 1024,
+                            };
+                            if status_code.as_u16() != status || !ok_body {
+                                ctx.violation("C12:connect-error-content", format!("{desc}: ConnectError with status {status_code} and {} body bytes", got.len()), replay.clone(), n);
+                            }
+                            if must_not_wait && asked {
+                                ctx.violation(
+                                    "C12:refusal-waits-for-close",
+                                    format!("{desc}: the reply says how long its body is, yet the client asked the connection for more and would wait for the read timeout before it reports the refusal"),
+                                    replay,
+                                    n,
+                                );
+                            }
+                        }
+                        other => ctx.violation(
+                            "C12:refusal-status-lost",
+                            format!("{desc}: send() failed with {} instead of a connect error carrying status {status}", format!("{other:?}").chars().take(100).collect::<String>()),
+                            replay,
+                            n,
+                        ),
+                    },
+                }
+            }
+        }
+    }
+    n
+}
+
 pub fn c12(ctx: &Ctx) -> Report {
+    let n_keep_open = keep_open_refusals(ctx);
+    ctx.count("keep_open_refusal_cases", n_keep_open);
     let cs = cases(ctx.tier);
     let n = cs.len() as u64;
     let outcomes = std::sync::Mutex::new(BTreeMap::<String, u64>::new());
@@ -630,6 +700,15 @@ pub fn c12(ctx: &Ctx) -> Report {
 }
 
 pub fn replay(v: &serde_json::Value) -> i32 {
+    if v["case"]["keep_open"] == true {
+        let ctx = Ctx::new("C12", Tier::Quick);
+        keep_open_refusals(&ctx);
+        let vs = ctx.drain_violations();
+        for (v, n) in &vs {
+            println!("{}: {} ({n} cases)", v.signature, v.what);
+        }
+        return if vs.is_empty() { 0 } else { 1 };
+    }
     if v["case"]["lab"] == true {
         let ctx = Ctx::new("C12", Tier::Quick);
         lab_part(&ctx);
